@@ -22,6 +22,7 @@ ASSUMPTIONS = [
     "a standard opcode (<224) decoded under a foreign device type comes back as UnknownGearCommand in the library; the property only demands a faithful generic command there, so this is counted as an observation, not a violation",
     "the whole library (dali.gear, dali.device) is imported before judging (import completeness is not a quantified dimension)",
 ]
+CHAIN_STRIDE = {'quick': 12, 'thorough': 60}      # every k-th shard is re-run in chains inside one process (non-initial process states)
 BOUNDS = {
     "quick": "2^16 frames x 10 device types; 24-bit: all 2^16 (address,instance) x 24 opcodes + all 2^16 (instance,opcode) x 32 address bytes; dev/inst events: 2^16 slice x 8 maps; lengths 1..64; order pairs over 72-frame alphabet, triples over 24",
     "thorough": "2^16 frames x all 256 device types; all 2^24 24-bit frames; all 2^21 dev/inst event frames x 8 maps; lengths 1..64; order pairs + triples over the full alphabet",
